@@ -363,7 +363,23 @@ retry_from_root:
                 // mt root is deleted, so scan end
                 return status::OK_SCAN_END;
             }
-            // L1+: the layer is gone; continue in the upper layer behind the link
+            // L1+: if the saved root was an interior node, only the root of the layer was
+            // replaced (the interior root collapsed and its surviving child took its place
+            // under the link of the upper layer): fetch the new root through that link and
+            // find the position again, as for a root that was split.
+            if (!root->get_version_border()) {
+                auto& up = ctx->stack_under_top();
+                link_or_value* up_lv = up.bn->get_lv_of_without_lock(
+                        up.key.get_key_slice(), up.key.get_key_length());
+                base_node* new_layer_root = (up_lv != nullptr) ? up_lv->get_next_layer() : nullptr;
+                if (new_layer_root != nullptr) {
+                    // (equal to the old pointer while the writer has not swapped the link yet)
+                    ctx->stack_top().layer_root = new_layer_root;
+                    goto retry_from_root; // NOLINT
+                }
+            }
+            // the layer is gone (its root border was emptied, or the link itself is gone);
+            // continue in the upper layer behind the link
             // (next_layer re-reads the upper layer's own position)
             ctx->stack_pop();
             st = &ctx->stack_top(); // sync alias
